@@ -93,7 +93,7 @@ class LockProxy:
 
 
 def make_ensure_hook(orig):
-    def hooked(self, level_number):
+    def hooked(self, level_number, *extra, **kwextra):
         tid = threading.get_ident()
         key = id(self)
         with MLOCK:
@@ -106,7 +106,7 @@ def make_ensure_hook(orig):
                 STATE["unlocked"] += 1
             before = len(self.cache)
         try:
-            return orig(self, level_number)
+            return orig(self, level_number, *extra, **kwextra)
         finally:
             after = len(self.cache)
             bad = None
